@@ -83,7 +83,7 @@ def run_family(fam, prop_id, tier, known, stats):
             obs = '(harness-exception %s)' % type(e).__name__
             c['_trace'] = traceback.format_exc()[-800:]
         if i in model_out:
-            mo = model_out[i]
+            mo = fam.normalize_model(model_out[i])
             if 'UNMODELLED' in mo:
                 discarded += 1
             elif mo != obs:
